@@ -18,7 +18,7 @@ ASSUMPTIONS = ["the responder double (dissononce HandshakeState, initiator=False
                "consonance's random.randint(float, float) is shimmed for CPython 3.12 (third-party incompatibility)",
                "thread interleavings are sampled (yield injection at statement starts + repetition), never exhausted",
                "a hang is decided by a stable blocked state (all handshake workers parked in an untimed wait with every stimulus delivered); a plain timeout is inconclusive"]
-REQUIRED = ["handshakes", "variant:XX", "variant:IK", "variant:XXfallback", "transport_reached", "frames_c2s", "frames_s2c",
+REQUIRED = ["real_big_cases", "real_big_ok", "real_big:socket", "real_big:asyncore", "handshakes", "variant:XX", "variant:IK", "variant:XXfallback", "transport_reached", "frames_c2s", "frames_s2c",
             "history:retry-after-cutoff", "history:corrupt-reply", "failure_reported", "key_persisted", "yields_injected",
             "glued_frames_cases", "completion_race_ok", "completion_race_released_mid_delivery", "completion_race_sweeps"]
 TIMEOUT = {"quick": 300, "thorough": 3600}
@@ -581,6 +581,8 @@ def shards(tier, seed, nworkers):
         specs.append({"kind": "random", "shard": i, "n": (270 if q else 40000) // nsh})
     for i, (variant, per_frame) in enumerate([("XX", False), ("XX", True), ("XXfallback", False), ("XXfallback", True)]):
         specs.append({"kind": "race", "variant": variant, "per_frame": per_frame, "sweeps": 1 if q else 12})
+    for dname in ("socket", "asyncore"):
+        specs.append({"kind": "real-big", "dispatcher": dname, "n": 1 if q else 8})
     return specs
 
 
@@ -603,6 +605,14 @@ def run(spec, acc):
                 Case(acc, seed, tag, d).run()
         acc.sample({"splits": "handshake reply of each variant cut at split point p, p stepping by %d" % spec["step"]})
         return
+    if spec["kind"] == "real-big":
+        # over the library's real dispatchers (the choice is a stack option): login over loopback TCP, then a stanza larger than
+        # the socket buffers next to small ones while the peer is slow to read; everything must arrive whole and in order
+        from vf.props import c11
+        for j in range(spec["n"]):
+            c11.real_big_stanza_case(acc, seed, "big/%s/%d" % (spec["dispatcher"], j), spec["dispatcher"], prop=ID)
+        acc.sample({"real_big_stanza": "handshake over loopback with the %s dispatcher, then a 6-12 MB stanza while the peer does not read for a moment" % spec["dispatcher"]})
+        return
     if spec["kind"] == "race":
         for j in range(spec["sweeps"]):
             completion_race_sweep(acc, seed, "race/%s/%s/%d" % (spec["variant"], spec["per_frame"], j), spec["variant"], spec["per_frame"])
@@ -621,5 +631,11 @@ def replay(spec, acc):
     from vf import env
     env.shim_thirdparty()
     w = spec["witness"]
+    if w.get("kind") == "big-stanza":
+        from vf.props import c11
+        return c11.real_big_stanza_case(acc, spec["seed"], w["tag"], w["dispatcher"], prop=ID)
+    if "desc" not in w:
+        acc.inconc("this witness kind has no single-case replay: run the check with the same seed")
+        return
     for _ in range(5):
         Case(acc, spec["seed"], w["tag"], w["desc"]).run()
